@@ -92,7 +92,8 @@ def run(ctx):
     # the metrical-position columns (rel_onset_div, tot_measure_div) are the map's values in division units: they follow the
     # lcm rescaling of the score-level note array like every other division column
     from ..rules import arrays as _A
-    _A.rule_rescale_set(ctx, "partitura.utils.music:note_array_from_note_list", "partitura.utils.music:note_array_from_part_list")
+    _A.rule_rescale_set(ctx, "partitura.utils.music:note_array_from_note_list", "partitura.utils.music:note_array_from_part_list",
+                        only=("rel_onset_div", "tot_measure_div"))
     M.rule_interp_kwargs(ctx)
     M.rule_F4b(ctx)
     rule_codes(ctx)
